@@ -26,6 +26,7 @@ var _ = vp.Reg("DecodeFootprint", H_DecodeFootprint)
 var _ = vp.Reg("InterleavedEncoders", H_InterleavedEncoders)
 var _ = vp.Reg("InterleavedRenderers", H_InterleavedRenderers)
 var _ = vp.Reg("Helpers", H_Helpers)
+var _ = vp.Reg("EncoderLifecycle", H_EncoderLifecycle)
 
 // H_DecodeFootprint: decoding / disassembling arbitrary instruction bytes
 // with palette options writes neither the input nor the caller's palette nor
@@ -206,21 +207,74 @@ func H_InterleavedRenderers() {
 }
 
 // H_Helpers: colour and viewBox helpers are pure: they write nothing shared
-// (the executor's monitor) and leave the package defaults as they are.
+// (the executor's monitor) and leave the package defaults and the palettes
+// they are handed as they are. The palettes hold arbitrary entries (gradient
+// encodings and non-premultiplied values included) at the indices resolved.
 func H_Helpers() {
 	c := color.RGBA{vp.U8("r"), vp.U8("g"), vp.U8("b"), vp.U8("a")}
 	col := ivg.RGBAColor(c)
 	pal, creg := ivg.DefaultPalette, ivg.DefaultPalette
+	pal[3] = color.RGBA{vp.U8("pr"), vp.U8("pg"), vp.U8("pb"), vp.U8("pa")}
+	creg[5] = color.RGBA{vp.U8("cr"), vp.U8("cg"), vp.U8("cb"), vp.U8("ca")}
+	keepPal, keepCreg := pal, creg
 	col.Resolve(&pal, &creg)
-	ivg.BlendColor(vp.U8("t"), 0x80, 0xc1).Resolve(&pal, &creg)
+	ivg.PaletteIndexColor(3).Resolve(&pal, &creg)
+	ivg.CRegColor(5).Resolve(&pal, &creg)
+	ivg.BlendColor(vp.U8("t"), 0x80+3, 0xc0+5).Resolve(&pal, &creg) // blend of palette[3] and creg[5]
+	ivg.BlendColor(vp.U8("t2"), 0x80, 0xc1).Resolve(&pal, &creg)
 	_ = col.String()
 	ivg.DecodeColor1(vp.U8("x"))
 	ivg.DecodeGradient(c)
 	ivg.EncodeGradient(1, 2, 1, 2, 3)
+	ivg.ValidGradient(c)
+	ivg.ValidAlphaPremulColor(c)
+	col.Encode1()
+	col.Encode2()
+	col.Encode3Direct()
+	col.Encode4()
 	ivg.DefaultViewBox.AspectMeet(10, 20, 0.5, 0.5)
 	ivg.DefaultViewBox.AspectSlice(10, 20, 0, 1)
 	ivg.DefaultViewBox.Size()
 	vp.Reach("called")
-	vp.Assert(pal == ivg.DefaultPalette && creg == ivg.DefaultPalette, "helpers do not modify the palettes they are given")
+	vp.Assert(pal == keepPal && creg == keepCreg, "helpers do not modify the palettes they are given")
 	vp.Assert(ivg.DefaultMetadata.ViewBox == ivg.DefaultViewBox, "package defaults are unchanged")
+}
+
+// H_EncoderLifecycle: a zero-value Encoder that is queried before anything is
+// emitted (Bytes, CSel, NSel, LOD), then Reset with default or custom
+// metadata, then driven, writes nothing outside itself (the executor's
+// monitor) and leaves a second, untouched zero-value Encoder's output alone.
+func H_EncoderLifecycle() {
+	var e, other encode.Encoder
+	switch vp.Choice("getter", 5) {
+	case 1:
+		e.Bytes()
+	case 2:
+		e.CSel()
+	case 3:
+		e.NSel()
+	case 4:
+		e.LOD()
+	}
+	vb, pal := ivg.DefaultViewBox, ivg.DefaultPalette
+	shared := pal
+	switch vp.Choice("meta", 3) {
+	case 1:
+		vb = ivg.ViewBox{MinX: -24, MinY: -24, MaxX: 24, MaxY: 24}
+	case 2:
+		pal[0] = color.RGBA{vp.U8("r"), vp.U8("g"), vp.U8("b"), 0xff}
+		shared = pal
+	}
+	if vp.Choice("reset", 2) == 1 {
+		e.Reset(vb, pal)
+	}
+	for _, s := range progA() {
+		apply(&e, s)
+	}
+	e.Bytes()
+	vp.Reach("encoded")
+	vp.Assert(pal == shared, "the palette handed to Reset is not modified")
+	out, err := other.Bytes()
+	vp.Assert(err == nil && len(out) == 5 && out[0] == 0x89 && out[1] == 'I' && out[2] == 'V' && out[3] == 'G' && out[4] == 0,
+		"an untouched zero-value Encoder still emits the default header")
 }
